@@ -28,7 +28,7 @@ Record rvm := mkR {
   r_active : bool        (* inside the loop of execute_instructions *)
 }.
 
-Inductive rev :=
+Inductive revent :=
 | REnter                       (* run / call_function: execute_instructions entered *)
 | RStep (len : N)              (* an instruction of `len` bytes that completes normally *)
 | RJump (len target : N)       (* a jump, or an error caught in this frame: set_ip(target) *)
@@ -38,7 +38,7 @@ Inductive rev :=
 | RResume.                     (* continue_running: execute_instructions entered again *)
 
 (* `entry_refresh`: whether execute_instructions starts with `self.instruction_ip = self.ip()` *)
-Definition rstep (entry_refresh : bool) (v : rvm) (e : rev) : rvm :=
+Definition rstep (entry_refresh : bool) (v : rvm) (e : revent) : rvm :=
   match e with
   | REnter | RResume =>
       if r_active v then v
@@ -67,7 +67,7 @@ Definition rstep (entry_refresh : bool) (v : rvm) (e : rev) : rvm :=
 
 (* any start: ip0 where execution starts, an arbitrary stale instruction_ip *)
 Definition rinit (ip0 stale : N) : rvm := mkR ip0 stale [] false.
-Definition rrun (entry_refresh : bool) (ip0 stale : N) (es : list rev) : rvm :=
+Definition rrun (entry_refresh : bool) (ip0 stale : N) (es : list revent) : rvm :=
   fold_left (rstep entry_refresh) es (rinit ip0 stale).
 
 (* what an error raised by the instruction about to be executed reports first, and then for each caller *)
